@@ -103,6 +103,15 @@ def strategy_(g):
                     j = rnd.choice(cands)
                     vi["p"] = dict(case["edges"][j]["off"])
                     vshare.append(["offset", i, j])
+    # two landmark edges whose sensor offsets (same parameter id) agree to ~1e-9 but not bitwise: an export must either refuse or
+    # write them as they are - it never edits an edge
+    lms = [i for i, e in enumerate(case["edges"]) if e["t"] == "lm" and e.get("off") and e["off"]["k"] == "se3"]
+    if len(lms) >= 2 and g.choice([False, True]):
+        i, j = rnd.sample(lms, 2)
+        off = {"k": "se3", "v": list(case["edges"][i]["off"]["v"])}
+        off["v"][rnd.randrange(3)] += rnd.choice([1e-9, -1e-9, 1e-12])
+        case["edges"][j]["off"] = off
+        case["meta"]["near_equal_offsets"] = True
     # SE(3) vertex poses as they come from a hand-written .g2o file (the loader does not normalise vertex quaternions): a few
     # significant digits only, or scaled slightly off unit norm - purity does not depend on the norm
     case["denorm"] = False
@@ -241,6 +250,8 @@ def _clone_graph(case, g):
 
 def check(case, ctx):
     GG.classify(case, ctx)
+    if case["meta"].get("near_equal_offsets"):
+        ctx.event("landmark-offsets-equal-to-1e-9-under-one-id")
     if case.get("denorm"):
         ctx.event("se3-vertex-quaternions-not-exactly-unit")
     g = build_shared(case)
@@ -332,6 +343,20 @@ def check(case, ctx):
                     _ = p + np.zeros(p.COMPACT_DIMENSIONALITY)
                     w = p
                     w += np.full(p.COMPACT_DIMENSIONALITY, 0.01)
+                    # increments are the caller's arrays (slices of the solver's dx): any size of step, also a rotation part
+                    # longer than 1 (which the update clips), writable or read-only - they are never written to
+                    cd = p.COMPACT_DIMENSIONALITY
+                    big = np.array([0.3, -0.2, 0.9, 0.8, -0.7, 0.6][:cd] if cd != 6 else [0.3, -0.2, 0.1, 0.9, 0.8, -0.7], dtype=np.float64)
+                    longer = np.concatenate([[5.0], big, [6.0]])
+                    sl = longer[1:-1]
+                    ro = big.copy()
+                    ro.setflags(write=False)
+                    keep = (big.tobytes(), longer.tobytes())
+                    _ = p + big, p + sl, p + ro
+                    w = p
+                    w += sl
+                    if (big.tobytes(), longer.tobytes()) != keep:
+                        return ctx.fail("operand-mutated", "pose + increment wrote into the caller's increment array (step %d)" % step)
                 except NotImplementedError:
                     pass
                 if gs.bits(p) != p0 or gs.bits(q) != q0:
